@@ -526,7 +526,9 @@ where
         3 => rem + 1,
         4 => rem + ctx.rng.range(1, if ctx.p.small { 600 } else { 5000 }),
         _ => {
-            if ctx.rng.chance(1, 5) {
+            // (a still unallocated arena takes a different path through reserve: probed much more often there)
+            let unallocated = ctx.view.typed.cur.is_none();
+            if ctx.rng.chance(if unallocated { 3 } else { 1 }, 5) {
                 // unrepresentable: must be reported as an error, never accepted
                 *ctx.rng.pick(&[usize::MAX, usize::MAX - 7, isize::MAX as usize + 1, isize::MAX as usize - 3])
             } else {
